@@ -32,6 +32,32 @@ def check_text(ctx, text, tag, seen):
     rep.case(case, bool(exp), tags=(tag,))
 
 
+VREGS = ["%xmm0", "%xmm13", "%ymm6", "%ymm29", "%zmm1", "%zmm28"]
+DECOR = ["", "", "{%k1}", "{%k2}{z}", "{%k7}"]
+
+
+def decorated_listing(g):
+    """lines in objdump's AT&T syntax for EVEX instructions: `vaddpd (%rdx,%r14,2){1to4},%xmm14,%xmm5{%k2}{z}`"""
+    lines, addr = [], g.pick([0, 0x1000, 0x401000])
+    for _ in range(g.int(1, 6)):
+        ops = []
+        for _ in range(g.pick([2, 3, 3])):
+            if g.chance(0.45):
+                base, idx, sc = "%" + g.pick(gen_lines.REG64), "%" + g.pick(gen_lines.REG64), g.pick(["1", "2", "4", "8"])
+                disp = g.pick(["", "0x40", "-0x8", "0x200"])
+                inner = g.pick(["(%s,%s,%s)" % (base, idx, sc), "(%s)" % base, "(,%s,%s)" % (idx, sc)])
+                ops.append(disp + inner + g.pick(["", "{1to4}", "{1to16}", "{%k1}", "{%k3}{z}"]))
+            elif g.chance(0.1):
+                ops.append(g.pick(["{rn-sae}", "{sae}", "{rz-sae}"]))
+            else:
+                ops.append(g.pick(VREGS) + g.pick(DECOR))
+        nb = g.int(6, 8)
+        byts = " ".join("%02x" % g.int(0, 255) for _ in range(min(nb, 7))) + " "
+        lines.append("%8x:\t%s\t%s %s" % (addr, byts, g.pick(["vaddpd", "vmovups", "vmulps", "vsqrtsd", "vmovdqa64"]), ",".join(ops)))
+        addr += nb
+    return "\n".join(lines) + "\n"
+
+
 def run(ctx, factor):
     g, rep = ctx.g, ctx.report
     rep.rule = ("for every listing (grammar-generated, real objdump on random bytes) the instruction list handed over by the "
@@ -45,8 +71,14 @@ def run(ctx, factor):
         check_text(ctx, r["text"], "grammar", seen)
         if rep.violations and factor > 1:
             return
-    for _ in range(ctx.budget(4, 120) * factor):
-        path = objfuzz.assemble(ctx.scratch, [(".text", objfuzz.random_bytes(g, g.int(40, 400)))])
+    # operand decorations objdump prints for AVX-512 code (masks, zeroing, broadcast, rounding): outside the C09 forms,
+    # inside this property's quantifier ("every instruction list the parser can produce from objdump output")
+    for _ in range(ctx.budget(60, 1500) * factor):
+        check_text(ctx, decorated_listing(g), "avx512-decorated-operands", seen)
+        if rep.violations and factor > 1:
+            return
+    for _ in range(ctx.budget(10, 150) * factor):
+        path = objfuzz.assemble(ctx.scratch, [(".text", objfuzz.random_bytes(g, g.int(40, 600)))])
         rc, out, err = objfuzz.objdump(path)
         # branch-hint mnemonics are the recorded finding D7: look at them separately
         lines = out.split("\n")
